@@ -10,6 +10,8 @@ CT_FUNCS = [('secp256k1_scalar_is_zero', []), ('secp256k1_scalar_cmov', []), ('s
             ('secp256k1_scalar_cond_negate', ['secp256k1_scalar_is_zero']), ('secp256k1_scalar_negate', ['secp256k1_scalar_is_zero']),
             ('secp256k1_fe_impl_normalize', []), ('secp256k1_fe_impl_normalize_weak', []), ('secp256k1_fe_impl_normalizes_to_zero', []),
             ('secp256k1_fe_impl_negate_unchecked', []), ('secp256k1_fe_impl_add', []), ('secp256k1_fe_impl_half', []), ('secp256k1_fe_impl_is_odd', []),
+            ('secp256k1_scalar_add', ['secp256k1_scalar_check_overflow'], ['secp256k1_scalar_reduce'], 'bind'), ('secp256k1_scalar_half', [], [], 'bind'), ('secp256k1_scalar_eq', []),
+            ('secp256k1_fe_impl_mul_int_unchecked', []), ('secp256k1_fe_impl_to_storage', []), ('secp256k1_fe_impl_from_storage', []), ('secp256k1_fe_impl_get_b32', []),
             ('secp256k1_scalar_mul_512', []), ('secp256k1_scalar_sqr_512', []),
             ('secp256k1_scalar_reduce_512', ['secp256k1_scalar_check_overflow'], ['secp256k1_scalar_reduce'], 'bind')]
 # the 32-bit-limb scalar code (compiled only with USE_FORCE_WIDEMUL_INT64 / on 32-bit targets), translated in bind style
@@ -47,7 +49,8 @@ K64_PROOFS = [('scalar_mul_512b', 'Kernel/ScalarMul4x64.vo', 'scalar_mul_512b_wp
 PROOFS = {'secp256k1_fe_mul_inner': ('Kernel/Field5x52.vo', 'fe_mul_inner_correct'),
           'secp256k1_fe_sqr_inner': ('Kernel/Field5x52Sqr.vo', 'fe_sqr_inner_correct')}
 # proofs over the regenerated branch-free primitives: (function, .vo, theorem)
-CT_PROOFS = [('secp256k1_fe_impl_add', 'Kernel/FieldPrims.vo', 'fe_add_correct'), ('secp256k1_fe_impl_negate_unchecked', 'Kernel/FieldPrims.vo', 'fe_negate_correct'),
+CT_PROOFS = [('secp256k1_scalar_add', 'Kernel/ScalarAdd.vo', 'scalar_add_correct'), ('secp256k1_scalar_half', 'Kernel/ScalarAdd.vo', 'scalar_half_correct'),
+             ('secp256k1_fe_impl_add', 'Kernel/FieldPrims.vo', 'fe_add_correct'), ('secp256k1_fe_impl_negate_unchecked', 'Kernel/FieldPrims.vo', 'fe_negate_correct'),
              ('secp256k1_fe_impl_half', 'Kernel/FieldPrims.vo', 'fe_half_correct'), ('secp256k1_scalar_negate', 'Kernel/FieldPrims.vo', 'scalar_negate_correct'),
              ('secp256k1_scalar_reduce_512', 'Kernel/ScalarReduce512.vo', 'scalar_reduce_512_correct'),
              ('secp256k1_scalar_mul_512', 'Kernel/ScalarMul512.vo', 'scalar_mul_512_correct'),
@@ -106,7 +109,7 @@ def limb_cases(rng, n, nin):
 RAW_SHAPES = {   # input shapes of the raw ops: S scalar limbs (4 x u64), F field limbs (5), T storage limbs (4), I flag, M magnitude, P non-negative int
  'scalar_is_zero': 'S', 'scalar_cmov': 'SSI', 'fe_impl_cmov': 'FFI', 'fe_storage_cmov': 'TTI', 'int_cmov': 'PPI', 'scalar_check_overflow': 'S',
  'scalar_is_high': 'S', 'scalar_cond_negate': 'sI', 'scalar_negate': 's', 'fe_impl_normalize': 'F', 'fe_impl_normalize_weak': 'F',
- 'fe_impl_normalizes_to_zero': 'F', 'fe_impl_negate_unchecked': 'fM', 'fe_impl_add': 'ff', 'fe_impl_half': 'f', 'fe_impl_is_odd': '1', 'scalar_mul_512': 'SS', 'scalar_sqr_512': 'S', 'scalar_reduce_512': 'SS', 'scalar_mul_512b': 'SS', 'scalar_sqr_512b': 'S', 'scalar_mul': 'SS', 'scalar_sqr': 'S'}
+ 'fe_impl_normalizes_to_zero': 'F', 'fe_impl_negate_unchecked': 'fM', 'fe_impl_add': 'ff', 'fe_impl_half': 'f', 'fe_impl_is_odd': '1', 'scalar_mul_512': 'SS', 'scalar_sqr_512': 'S', 'scalar_reduce_512': 'SS', 'scalar_add': 'ss', 'scalar_half': 's', 'scalar_mul_512b': 'SS', 'scalar_sqr_512b': 'S', 'scalar_mul': 'SS', 'scalar_sqr': 'S'}
 N_LIMBS = [0xBFD25E8CD0364141, 0xBAAEDCE6AF48A03B, 0xFFFFFFFFFFFFFFFE, 0xFFFFFFFFFFFFFFFF]
 def raw_inputs(rng, shape):
     v = []
